@@ -389,9 +389,18 @@ def run(check):
         others = [d for r, d in shapes if d is not (conv[0] if conv else None)]
         okf = bool(others) and all(d == passthru for d in others) and _always_returns(g["body"]["stmts"])
         c.expect(bool(okf), R3, R3 + "/pass-through", sm.loc(last), "every other exit returns { path: filename, line, column } unchanged", "getPathAndLine has an exit that does not return its parameters unchanged: %s" % ([d for d in others if d != passthru] or "falls off the end"))
-        trys = [x for x in g["body"]["stmts"] if x.get("type") == "TryStatement"]
-        inside = trys and all(any(y is x for y in jsast.walk(trys[0]["block"])) for x in fe)
-        c.expect(bool(inside) and trys[0].get("handler") is not None, R3, R3 + "/never-throws", sm.loc(g), "lookup inside try/catch", "the map lookup can throw out of getPathAndLine")
+        # every lookup sits in the block of a try (the whole body, or a narrower one under the map test) whose
+        # handler is there and does not throw again
+        trys = [x for x in jsast.walk(g["body"]) if x.get("type") == "TryStatement"]
+
+        def _guarded(x):
+            for t_ in trys:
+                if t_.get("handler") is not None and any(y is x for y in jsast.walk(t_["block"])) and not any(y.get("type") == "ThrowStatement" for y in jsast.walk(t_["handler"])):
+                    return True
+            return False
+
+        inside = bool(fe) and all(_guarded(x) for x in fe)
+        c.expect(bool(inside), R3, R3 + "/never-throws", sm.loc(g), "lookup inside try/catch", "the map lookup can throw out of getPathAndLine")
 
         def forwards(fn_, call, names3):
             """does the call hand (names3) on as the position: three arguments, or one location object"""
